@@ -7,6 +7,8 @@
   registry side `RegInv reg g` = `RegCompat` ∧ `CounterAbove` ∧ `RegOk` (Spec/WFReg.lean).
 -/
 import GoNeat.Proofs.WFLemmas
+import GoNeat.Proofs.WFParam
+import GoNeat.Proofs.WFStruct
 import GoNeat.Props.C04
 import GoNeat.Props.C05
 import GoNeat.Props.C06
@@ -76,5 +78,390 @@ theorem duplicate_wf (g : Genome W) (newId : Int) (h : WFT g) (hm : g.modules = 
   · exact (SameSkel.wft (g := g) ⟨rfl, rfl, rfl⟩ h.wf.traitRefs h)
   · exact Retains.refl g
   · exact ⟨rfl, rfl, rfl⟩
+
+/-! ## the seven parametric mutators
+
+Shape of every theorem: well-formed in ⇒ well-formed out, every input/bias/output node retained, and — for *every*
+registry — `RegCompat`/`CounterAbove`/`RegOk` (`RegInv`) carried over; the step keeps the skeleton (`SameSkel`:
+innovation numbers, links, node ids and kinds, trait ids), which is what the population-level closure uses. -/
+
+/-- what a skeleton-preserving step with resolving trait references gives -/
+theorem param_step {g g' : Genome W} (hs : SameSkel g g' ∧ TraitRefsOwned g') (hw : WFT g) :
+    WFT g' ∧ Retains g g' ∧ (∀ reg : Reg W, RegInv reg g → RegInv reg g') ∧ SameSkel g g' :=
+  ⟨hs.1.wft hs.2 hw, hs.1.retains, fun reg hi => hs.1.regInv reg hi, hs.1⟩
+
+theorem mutateLinkWeights_wf (g g' : Genome W) (power rate : W) (mt : WeightMutator) (rs rs' : List Nat)
+    (hw : WFT g) (h : mutateLinkWeights g power rate mt rs = .ok (g', rs')) :
+    WFT g' ∧ Retains g g' ∧ (∀ reg : Reg W, RegInv reg g → RegInv reg g') ∧ SameSkel g g' :=
+  param_step (mutateLinkWeights_skel g g' power rate mt rs rs' h hw.wf.traitRefs) hw
+
+theorem mutateRandomTrait_wf (g g' : Genome W) (o : MutOpts W) (rs rs' : List Nat)
+    (hw : WFT g) (h : mutateRandomTrait g o rs = .ok (g', rs')) :
+    WFT g' ∧ Retains g g' ∧ (∀ reg : Reg W, RegInv reg g → RegInv reg g') ∧ SameSkel g g' :=
+  param_step (mutateRandomTrait_skel g g' o rs rs' h hw.wf.traitRefs) hw
+
+theorem mutateLinkTrait_wf (times : Nat) (g g' : Genome W) (rs rs' : List Nat)
+    (hw : WFT g) (h : mutateLinkTrait g times rs = .ok (g', rs')) :
+    WFT g' ∧ Retains g g' ∧ (∀ reg : Reg W, RegInv reg g → RegInv reg g') ∧ SameSkel g g' :=
+  param_step (mutateLinkTrait_skel times g g' rs rs' h hw.tnz hw.wf.traitRefs) hw
+
+theorem mutateNodeTrait_wf (times : Nat) (g g' : Genome W) (rs rs' : List Nat)
+    (hw : WFT g) (h : mutateNodeTrait g times rs = .ok (g', rs')) :
+    WFT g' ∧ Retains g g' ∧ (∀ reg : Reg W, RegInv reg g → RegInv reg g') ∧ SameSkel g g' :=
+  param_step (mutateNodeTrait_skel times g g' rs rs' h hw.tnz hw.wf.traitRefs) hw
+
+theorem mutateToggleEnable_wf (times : Nat) (g g' : Genome W) (rs rs' : List Nat)
+    (hw : WFT g) (h : mutateToggleEnable g times rs = .ok (g', rs')) :
+    WFT g' ∧ Retains g g' ∧ (∀ reg : Reg W, RegInv reg g → RegInv reg g') ∧ SameSkel g g' :=
+  param_step (mutateToggleEnable_skel times g g' rs rs' h hw.wf.traitRefs) hw
+
+theorem mutateGeneReEnable_wf (g g' : Genome W) (hw : WFT g) (h : mutateGeneReEnable g = .ok g') :
+    WFT g' ∧ Retains g g' ∧ (∀ reg : Reg W, RegInv reg g → RegInv reg g') ∧ SameSkel g g' :=
+  param_step (mutateGeneReEnable_skel g g' h hw.wf.traitRefs) hw
+
+theorem mutateAllNonstructural_wf (g g' : Genome W) (o : MutOpts W) (rs rs' : List Nat)
+    (hw : WFT g) (h : mutateAllNonstructural g o rs = .ok (g', rs')) :
+    WFT g' ∧ Retains g g' ∧ (∀ reg : Reg W, RegInv reg g → RegInv reg g') ∧ SameSkel g g' :=
+  param_step (mutateAllNonstructural_skel g g' o rs rs' h hw.tnz hw.wf.traitRefs) hw
+
+/-! ## add-link
+
+The `linkExists` test of the search loop excludes a duplicate link and a sensor target; the `haveGene` guard
+together with `RegCompat` excludes a duplicate innovation number when the number comes from a record; a fresh
+number exceeds every number of the genome by `CounterAbove`. -/
+
+omit [Scalar W] in
+theorem mem_geneInsert_key (genes : List (Gene W)) (x : Gene W) :
+    ∀ y ∈ geneInsert genes x, y = x ∨ ∃ z ∈ genes, geneKey z = geneKey y := by
+  intro y hy
+  rcases (mem_insertAt _ _ _ _).mp hy with h | h
+  · exact Or.inl h
+  · exact Or.inr ⟨y, h, rfl⟩
+
+theorem mutateAddLink_wf (g g' : Genome W) (reg reg' : Reg W) (o : MutOpts W) (rs rs' : List Nat) (b : Bool)
+    (hw : WFT g) (hi : RegInv reg g) (h : mutateAddLink g reg o rs = .ok ((g', reg', b), rs')) :
+    WFT g' ∧ Retains g g' ∧ RegInv reg' g' := by
+  unfold mutateAddLink at h
+  split at h
+  · cases h
+  · split at h
+    · cases h
+    · split at h
+      · cases h
+      · rename_i f rs1 _
+        simp only at h
+        split at h
+        · cases h
+        · simp only [Except.ok.injEq, Prod.mk.injEq] at h
+          obtain ⟨⟨rfl, rfl, _⟩, _⟩ := h
+          exact ⟨hw, Retains.refl _, hi⟩
+        · simp only [Except.ok.injEq, Prod.mk.injEq] at h
+          obtain ⟨⟨rfl, rfl, _⟩, _⟩ := h
+          exact ⟨hw, Retains.refl _, hi⟩
+        · rename_i n1 n2 rs2 hf
+          obtain ⟨hn1, hn2, hsens, hnodup⟩ := C05.findOpenLink_spec g _ _ _ _ _ _ n1 n2 hf
+          have hsrc : n1.id ∈ nodeIds g := List.mem_map_of_mem hn1
+          have hdst : n2.id ∈ nodeIds g := List.mem_map_of_mem hn2
+          have hsens' : ∀ n ∈ g.nodes, n.id = n2.id → n.isSensor = false := by
+            intro n hn e
+            rw [node_unique g.nodes hw.wf.nodesSorted n n2 hn hn2 e]; exact hsens
+          split at h
+          · rename_i inn hfind
+            have hmem : inn ∈ reg.records := List.mem_of_find?_eq_some hfind
+            have hp := List.find?_some hfind
+            simp only [Bool.and_eq_true, beq_iff_eq] at hp
+            obtain ⟨⟨⟨ht, hin⟩, hout⟩, hrec⟩ := hp
+            split at h
+            · cases h
+            · rename_i tr htr
+              split at h
+              · simp only [Except.ok.injEq, Prod.mk.injEq] at h
+                obtain ⟨⟨rfl, rfl, _⟩, _⟩ := h
+                exact ⟨hw, Retains.refl _, hi⟩
+              · rename_i hhave
+                split at h
+                · cases h
+                · simp only [Except.ok.injEq, Prod.mk.injEq] at h
+                  obtain ⟨⟨rfl, rfl, _⟩, _⟩ := h
+                  have hhave' := Bool.eq_false_iff.mpr hhave
+                  have hinn := haveGene_false g _ hw.wf.genesSorted hhave' (by
+                    intro y hy e
+                    have := (hi.compat inn hmem).1 ht y hy e
+                    rw [this, hin, hout, hrec]; rfl)
+                  refine ⟨addGene_wft g _ hw hinn ?_ hsrc hdst hsens' (traitAt_ok g _ tr htr hw.tnz),
+                          Retains.of_nodes_eq _ _ rfl, ?_⟩
+                  · intro y hy e
+                    unfold Gene.link at e; simp only [Prod.mk.injEq] at e
+                    exact hnodup y hy e
+                  · exact regInv_recorded2 reg g _ inn _ hmem ht rfl (by rw [← hin, ← hout, ← hrec]; rfl)
+                      (mem_geneInsert_key _ _) rfl hi
+          · split at h
+            · cases h
+            · split at h
+              · cases h
+              · rename_i traitNum rs3 _ w rs4 _
+                split at h
+                · cases h
+                · rename_i tr htr
+                  split at h
+                  · cases h
+                  · simp only [Except.ok.injEq, Prod.mk.injEq] at h
+                    obtain ⟨⟨rfl, rfl, _⟩, _⟩ := h
+                    have hinn : ∀ y ∈ g.genes, y.inn ≠ reg.nextInn + 1 := by
+                      intro y hy; have := hi.above.1 y hy; omega
+                    refine ⟨addGene_wft g _ hw hinn ?_ hsrc hdst hsens' (traitAt_ok g _ tr htr hw.tnz),
+                            Retains.of_nodes_eq _ _ rfl, ?_⟩
+                    · intro y hy e
+                      unfold Gene.link at e; simp only [Prod.mk.injEq] at e
+                      exact hnodup y hy e
+                    · exact regInv_fresh2 reg g _ _ _ rfl rfl rfl rfl (mem_geneInsert_key _ _) rfl hi
+
+/-! ## connect-sensors
+
+One loop iteration per non-sensor node; the invariant `WFT ∧ RegInv` (node list unchanged) is carried through the
+loop.  The "a gene from this sensor to this node exists" test excludes a duplicate link. -/
+
+theorem connectOne_wf (sensor output : Node) (g g' : Genome W) (reg reg' : Reg W) (added added' : Bool)
+    (rs rs' : List Nat) (hw : WFT g) (hi : RegInv reg g) (hs : sensor ∈ g.nodes) (ho : output ∈ g.nodes)
+    (hos : output.isSensor = false)
+    (h : connectOne sensor output g reg added rs = .ok (some (g', reg', added'), rs')) :
+    WFT g' ∧ RegInv reg' g' ∧ g'.nodes = g.nodes := by
+  unfold connectOne at h
+  split at h
+  · simp only [Except.ok.injEq, Prod.mk.injEq, Option.some.injEq] at h
+    obtain ⟨⟨rfl, rfl, _⟩, _⟩ := h
+    exact ⟨hw, hi, rfl⟩
+  · rename_i hany
+    have hnolink : ∀ y ∈ g.genes, ¬ (y.src = sensor.id ∧ y.dst = output.id) := by
+      intro y hy ⟨e1, e2⟩
+      apply hany
+      exact List.any_eq_true.mpr ⟨y, hy, by simp [e1, e2]⟩
+    have hsrc : sensor.id ∈ nodeIds g := List.mem_map_of_mem hs
+    have hdst : output.id ∈ nodeIds g := List.mem_map_of_mem ho
+    have hsens' : ∀ n ∈ g.nodes, n.id = output.id → n.isSensor = false := by
+      intro n hn e
+      rw [node_unique g.nodes hw.wf.nodesSorted n output hn ho e]; exact hos
+    split at h
+    · rename_i inn hfind
+      have hmem : inn ∈ reg.records := List.mem_of_find?_eq_some hfind
+      have hp := List.find?_some hfind
+      simp only [Bool.and_eq_true, beq_iff_eq, Bool.not_eq_eq_eq_not, Bool.not_true] at hp
+      obtain ⟨⟨⟨ht, hin⟩, hout⟩, hrec⟩ := hp
+      split at h
+      · cases h
+      · rename_i tr htr
+        simp only at h
+        split at h
+        · simp at h
+        · rename_i hhave
+          simp only [Except.ok.injEq, Prod.mk.injEq, Option.some.injEq] at h
+          obtain ⟨⟨rfl, rfl, _⟩, _⟩ := h
+          have hhave' := Bool.eq_false_iff.mpr hhave
+          have hinn := haveGene_false g _ hw.wf.genesSorted hhave' (by
+            intro y hy e
+            have := (hi.compat inn hmem).1 ht y hy e
+            rw [this, hin, hout, hrec]; rfl)
+          refine ⟨addGene_wft g _ hw hinn ?_ hsrc hdst hsens' (traitAt_ok g _ tr htr hw.tnz), ?_, rfl⟩
+          · intro y hy e
+            unfold Gene.link at e; simp only [Prod.mk.injEq] at e
+            exact hnolink y hy ⟨e.1, e.2.1⟩
+          · exact regInv_recorded2 reg g _ inn _ hmem ht rfl (by rw [← hin, ← hout, hrec]; rfl)
+              (mem_geneInsert_key _ _) rfl hi
+    · split at h
+      · cases h
+      · split at h
+        · cases h
+        · split at h
+          rename_i innId reg1 hpair
+          simp only [Reg.nextInnovation, Prod.mk.injEq] at hpair
+          obtain ⟨rfl, rfl⟩ := hpair
+          split at h
+          · cases h
+          · rename_i tr htr
+            simp only [Except.ok.injEq, Prod.mk.injEq, Option.some.injEq] at h
+            obtain ⟨⟨rfl, rfl, _⟩, _⟩ := h
+            have hinn : ∀ y ∈ g.genes, y.inn ≠ reg.nextInn + 1 := by
+              intro y hy; have := hi.above.1 y hy; omega
+            refine ⟨addGene_wft g _ hw hinn ?_ hsrc hdst hsens' (traitAt_ok g _ tr htr hw.tnz), ?_, rfl⟩
+            · intro y hy e
+              unfold Gene.link at e; simp only [Prod.mk.injEq] at e
+              exact hnolink y hy ⟨e.1, e.2.1⟩
+            · exact regInv_fresh2 reg g _ _ _ rfl rfl rfl rfl (mem_geneInsert_key _ _) rfl hi
+
+theorem connectLoop_wf (sensor : Node) (outs : List Node) (g g' : Genome W) (reg reg' : Reg W) (added b : Bool)
+    (rs rs' : List Nat) (hw : WFT g) (hi : RegInv reg g) (hs : sensor ∈ g.nodes)
+    (ho : ∀ o ∈ outs, o ∈ g.nodes ∧ o.isSensor = false)
+    (h : connectLoop sensor outs g reg added rs = .ok ((g', reg', b), rs')) :
+    WFT g' ∧ RegInv reg' g' ∧ g'.nodes = g.nodes := by
+  induction outs generalizing g reg added rs with
+  | nil =>
+    unfold connectLoop at h
+    simp only [Except.ok.injEq, Prod.mk.injEq] at h
+    obtain ⟨⟨rfl, rfl, _⟩, _⟩ := h
+    exact ⟨hw, hi, rfl⟩
+  | cons o os ih =>
+    unfold connectLoop at h
+    split at h
+    · cases h
+    · simp only [Except.ok.injEq, Prod.mk.injEq] at h
+      obtain ⟨⟨rfl, rfl, _⟩, _⟩ := h
+      exact ⟨hw, hi, rfl⟩
+    · rename_i g1 reg1 added1 rs1 h1
+      obtain ⟨w1, i1, n1⟩ := connectOne_wf sensor o g g1 reg reg1 added added1 rs rs1 hw hi hs
+        (ho o (by simp)).1 (ho o (by simp)).2 h1
+      obtain ⟨w2, i2, n2⟩ := ih g1 reg1 added1 rs1 w1 i1 (by rw [n1]; exact hs)
+        (fun x hx => by rw [n1]; exact ho x (List.mem_cons_of_mem _ hx)) h
+      exact ⟨w2, i2, n2.trans n1⟩
+
+theorem mutateConnectSensors_wf (g g' : Genome W) (reg reg' : Reg W) (rs rs' : List Nat) (b : Bool)
+    (hw : WFT g) (hi : RegInv reg g) (h : mutateConnectSensors g reg rs = .ok ((g', reg', b), rs')) :
+    WFT g' ∧ Retains g g' ∧ RegInv reg' g' := by
+  unfold mutateConnectSensors at h
+  split at h
+  · cases h
+  · simp only at h
+    split at h
+    · simp only [Except.ok.injEq, Prod.mk.injEq] at h
+      obtain ⟨⟨rfl, rfl, _⟩, _⟩ := h
+      exact ⟨hw, Retains.refl _, hi⟩
+    · split at h
+      · cases h
+      · split at h
+        · cases h
+        · rename_i sensor hk
+          have hsm := List.mem_of_getElem? hk
+          have hs : sensor ∈ g.nodes := (List.mem_filter.mp (List.mem_filter.mp hsm).1).1
+          obtain ⟨w, i, n⟩ := connectLoop_wf sensor _ g g' reg reg' false b _ rs' hw hi hs
+            (fun o ho => by
+              have := List.mem_filter.mp ho
+              exact ⟨this.1, by simpa using this.2⟩) h
+          exact ⟨w, Retains.of_nodes_eq _ _ n, i⟩
+
+/-! ## add-node
+
+The chosen gene is disabled first (a skeleton-preserving step); then either a matching record supplies node id and
+the two numbers — the `haveNode` guard plus `RegCompat` exclude both a duplicate node and duplicate numbers — or all
+three are fresh (`CounterAbove`).  On the "node already in this genome" exit the genome keeps the disabled gene and
+is still well-formed. -/
+
+theorem setEnabledAt_step (g : Genome W) (k : Nat) (b : Bool) (hr : TraitRefsOwned g) :
+    SameSkel g { g with genes := setEnabledAt g.genes k b } ∧
+    TraitRefsOwned ({ g with genes := setEnabledAt g.genes k b } : Genome W) ∧
+    (∀ y ∈ setEnabledAt g.genes k b, ∃ z ∈ g.genes, geneKey z = geneKey y ∧ z.trait = y.trait) := by
+  have hk : ∀ y ∈ setEnabledAt g.genes k b, ∃ z ∈ g.genes, geneKey z = geneKey y ∧ z.trait = y.trait := by
+    intro y hy
+    unfold setEnabledAt at hy
+    rcases mem_modify _ _ _ _ hy with h | ⟨z, hz, rfl⟩
+    · exact ⟨y, h, rfl, rfl⟩
+    · exact ⟨z, hz, rfl, rfl⟩
+  refine ⟨⟨skel_to_key _ _ (C05.modify_map_skel g.genes k b), rfl, rfl⟩, ⟨?_, hr.2⟩, hk⟩
+  intro y hy
+  obtain ⟨z, hz, _, e⟩ := hk y hy
+  rw [← e]; exact hr.1 z hz
+
+theorem mutateAddNode_wf (g g' : Genome W) (reg reg' : Reg W) (o : MutOpts W) (rs rs' : List Nat) (b : Bool)
+    (hw : WFT g) (hi : RegInv reg g) (h : mutateAddNode g reg o rs = .ok ((g', reg', b), rs')) :
+    WFT g' ∧ Retains g g' ∧ RegInv reg' g' := by
+  unfold mutateAddNode at h
+  split at h
+  · simp only [Except.ok.injEq, Prod.mk.injEq] at h
+    obtain ⟨⟨rfl, rfl, _⟩, _⟩ := h
+    exact ⟨hw, Retains.refl _, hi⟩
+  · simp only at h
+    split at h
+    · cases h
+    · simp only [Except.ok.injEq, Prod.mk.injEq] at h
+      obtain ⟨⟨rfl, rfl, _⟩, _⟩ := h
+      exact ⟨hw, Retains.refl _, hi⟩
+    · rename_i k rs1 _
+      split at h
+      · cases h
+      · rename_i gene hk
+        have hgm : gene ∈ g.genes := List.mem_of_getElem? hk
+        obtain ⟨hskel, hrefs1, hkeys⟩ := setEnabledAt_step g k false hw.wf.traitRefs
+        have hw1 : WFT ({ g with genes := setEnabledAt g.genes k false } : Genome W) := hskel.wft hrefs1 hw
+        have hi1 : RegInv reg ({ g with genes := setEnabledAt g.genes k false } : Genome W) := hskel.regInv reg hi
+        have hsrc : gene.src ∈ nodeIds g := (hw.wf.endpoints gene hgm).1
+        have hdst : gene.dst ∈ nodeIds g := (hw.wf.endpoints gene hgm).2
+        have hsens : ∀ m ∈ g.nodes, m.id = gene.dst → m.isSensor = false := hw.wf.noSensorTarget gene hgm
+        have htrg : TraitRefOk g gene.trait := hw.wf.traitRefs.1 gene hgm
+        have hgenes : ∀ (x1 x2 : Gene W), ∀ y ∈ geneInsert (geneInsert (setEnabledAt g.genes k false) x1) x2,
+            y = x1 ∨ y = x2 ∨ ∃ z ∈ g.genes, geneKey z = geneKey y := by
+          intro x1 x2 y hy
+          rcases (mem_insertAt _ _ _ _).mp hy with h | h
+          · exact Or.inr (Or.inl h)
+          · rcases (mem_insertAt _ _ _ _).mp h with h | h
+            · exact Or.inl h
+            · obtain ⟨z, hz, e, _⟩ := hkeys y h
+              exact Or.inr (Or.inr ⟨z, hz, e⟩)
+        have hnodes : ∀ (n : Node), ∀ m ∈ nodeInsert g.nodes n, m = n ∨ m ∈ g.nodes :=
+          fun n m hm => (mem_insertAt _ _ _ _).mp hm
+        have hret : ∀ (n : Node) (gs : List (Gene W)),
+            Retains g ({ g with genes := gs, nodes := nodeInsert g.nodes n } : Genome W) :=
+          fun n gs => Retains.of_nodes_sub _ _ (fun m hm => (mem_insertAt _ _ _ _).mpr (Or.inr hm))
+        split at h
+        · rename_i inn hfind
+          have hmem : inn ∈ reg.records := List.mem_of_find?_eq_some hfind
+          have hp := List.find?_some hfind
+          simp only [Bool.and_eq_true, beq_iff_eq] at hp
+          obtain ⟨⟨⟨ht, hin⟩, hout⟩, _⟩ := hp
+          split at h
+          · cases h
+          · rename_i tr0 htr0
+            split at h
+            · simp only [Except.ok.injEq, Prod.mk.injEq] at h
+              obtain ⟨⟨rfl, rfl, _⟩, _⟩ := h
+              exact ⟨hw1, hskel.retains, hi1⟩
+            · rename_i hhas
+              simp only [Except.ok.injEq, Prod.mk.injEq] at h
+              obtain ⟨⟨rfl, rfl, _⟩, _⟩ := h
+              have hnid : inn.newNode ∉ nodeIds g :=
+                not_mem_nodeIds_of_hasNode ({ g with genes := setEnabledAt g.genes k false } : Genome W) _
+                  (Bool.eq_false_iff.mpr hhas)
+              have hc := (hi1.compat inn hmem).2 ht
+              have hpair := (hi.ok.2 inn hmem inn hmem).2.2 ht ht
+              refine ⟨?_, hret _ _, ?_⟩
+              · refine addSplit_wft ({ g with genes := setEnabledAt g.genes k false } : Genome W) _ _ _ hw1 hnid rfl
+                  (traitAt_ok _ _ tr0 htr0 hw.tnz) ⟨rfl, hsrc, htrg⟩ ⟨rfl, hdst, htrg⟩ hsens ?_ ?_ hpair.2.2
+                · intro y hy e
+                  have := (hc.1 y hy e).2
+                  exact hnid (this ▸ (hw1.wf.endpoints y hy).2)
+                · intro y hy e
+                  have := (hc.2.1 y hy e).1
+                  exact hnid (this ▸ (hw1.wf.endpoints y hy).1)
+              · exact regInv_recorded1 reg g _ inn
+                  { inn := inn.inn, src := gene.src, dst := inn.newNode, recur := gene.recur, w := one, mnum := zero,
+                    en := true, trait := gene.trait }
+                  { inn := inn.inn2, src := inn.newNode, dst := gene.dst, recur := false, w := gene.w, mnum := zero,
+                    en := true, trait := gene.trait }
+                  { id := inn.newNode, kind := Kind.hidden, act := defaultActivation, trait := tr0 }
+                  hmem ht ⟨rfl, hin.symm, rfl⟩ ⟨rfl, rfl, hout.symm, rfl⟩
+                  ⟨rfl, rfl⟩ (hgenes _ _) (hnodes _) hi
+        · split at h
+          · cases h
+          · rename_i tr0 htr0
+            split at h
+            · cases h
+            · rename_i act rs2 _
+              simp only [Reg.nextNodeId, Reg.nextInnovation, Except.ok.injEq, Prod.mk.injEq] at h
+              obtain ⟨⟨rfl, rfl, _⟩, _⟩ := h
+              have hnid : reg.nextNode + 1 ∉ nodeIds g := by
+                intro hm
+                obtain ⟨m, hm', e⟩ := List.mem_map.mp hm
+                have := hi.above.2 m hm'; omega
+              refine ⟨?_, hret _ _, ?_⟩
+              · refine addSplit_wft ({ g with genes := setEnabledAt g.genes k false } : Genome W) _ _ _ hw1 hnid rfl
+                  (traitAt_ok _ _ tr0 htr0 hw.tnz) ⟨rfl, hsrc, htrg⟩ ⟨rfl, hdst, htrg⟩ hsens ?_ ?_ ?_
+                · intro y hy; have := hi1.above.1 y hy; simp only; omega
+                · intro y hy; have := hi1.above.1 y hy; simp only; omega
+                · simp only; omega
+              · exact regInv_fresh1 reg g _ _
+                  { inn := reg.nextInn + 1, src := gene.src, dst := reg.nextNode + 1, recur := gene.recur, w := one,
+                    mnum := zero, en := true, trait := gene.trait }
+                  { inn := reg.nextInn + 1 + 1, src := reg.nextNode + 1, dst := gene.dst, recur := false, w := gene.w,
+                    mnum := zero, en := true, trait := gene.trait }
+                  { id := reg.nextNode + 1, kind := Kind.hidden, act := act, trait := tr0 }
+                  rfl rfl (by simp only; omega) rfl ⟨rfl, rfl, rfl⟩
+                  ⟨rfl, rfl, rfl, rfl⟩ ⟨rfl, rfl⟩ (hgenes _ _) (hnodes _) hi
 
 end GoNeat.C01
